@@ -3,6 +3,7 @@ M-Proto proofs, part 3 (C17): the theorems about `generatePlan` / `cliPlan`:
 all-or-nothing, conflict detection (on raw keys), confinement, ancestry.
 -/
 import ThriftVerif.Proto.PlanProofs
+import ThriftVerif.Proto.PlanProofs1
 
 set_option linter.unusedSimpArgs false
 set_option linter.unusedVariables false
@@ -25,7 +26,7 @@ theorem plan_ok_imply_all_ok {root out : Str} {mods plugs ord} {ws : Files}
     (h : generatePlan root out mods plugs ord = .ok ws) :
     (∀ m ∈ mods, m.result.isSome = true ∧ (modulePath root m.thriftPath).isSome = true) ∧
     (∀ p ∈ plugs, ∃ fs, p = some fs ∧ ∀ x ∈ fs, containsDotDot x.1 = false) := by
-  obtain ⟨core, fs, hg, hc, _, _, _⟩ := generatePlan_ok_spec h
+  obtain ⟨core, fs, hg, hc, _⟩ := generatePlan_ok_spec h
   exact ⟨(genModules_ok_spec _ _ _ _ hg).1, hc.all_ok⟩
 
 theorem plan_writes_imply_all_ok (root out : Str) (mods plugs ord)
@@ -62,21 +63,31 @@ theorem pickOrder_pairwise_two {α} (R : α → α → Prop) (hsym : ∀ a b, R 
   · exact absurd hj.symm hij
   · exact (List.pairwise_cons.1 hcons).1 b (mem_pickOrder.2 ⟨j, hj, hb⟩)
 
-/-- (a) two plugins answer with the same raw path: for EVERY completion order that
-contains both (in particular every permutation of all plugins). -/
+theorem hasKey_normFiles {f : Files} {x : Str × Content} (hx : x ∈ f) :
+    hasKey (normFiles f) (normKey x.1) = true := by
+  have : (normKey x.1, x.2) ∈ normFiles f := List.mem_map.2 ⟨x, hx, rfl⟩
+  exact hasKey_of_mem this
+
+theorem Checked.getNorm {plugs fs} (h : Checked plugs fs) (i : Nat) (f : Files)
+    (hi : plugs[i]? = some (some f)) : (fs.map normFiles)[i]? = some (normFiles f) := by
+  simp [List.getElem?_map, h.get i f hi]
+
+/-- (a) two plugins answer with paths that are the same file (equal `normKey`): an error for
+EVERY completion order that contains both (in particular every permutation of all plugins). -/
 theorem conflict_detected_plugins_mem (root out : Str) (mods plugs) (ord : List Nat)
-    (i j : Nat) (fi fj : Files) (p : Str)
+    (i j : Nat) (fi fj : Files) (x y : Str × Content)
     (hi : plugs[i]? = some (some fi)) (hj : plugs[j]? = some (some fj)) (hij : i ≠ j)
     (hio : i ∈ ord) (hjo : j ∈ ord)
-    (hpi : hasKey fi p = true) (hpj : hasKey fj p = true) :
+    (hx : x ∈ fi) (hy : y ∈ fj) (hxy : normKey x.1 = normKey y.1) :
     ∃ e, generatePlan root out mods plugs ord = .error e := by
   cases hg : generatePlan root out mods plugs ord with
   | error e => exact ⟨e, rfl⟩
   | ok ws =>
     exfalso
-    obtain ⟨core, fs, _, hc, hpw, _, _⟩ := generatePlan_ok_spec hg
-    exact pickOrder_pairwise_two KeyDisjoint (fun _ _ h => h.symm) fs ord i j fi fj hio hjo hij
-      (hc.get i fi hi) (hc.get j fj hj) hpw p hpi hpj
+    obtain ⟨core, fs, _, hc, hpw, _⟩ := generatePlan_ok_spec hg
+    exact pickOrder_pairwise_two KeyDisjoint (fun _ _ h => h.symm) _ ord i j _ _ hio hjo hij
+      (hc.getNorm i fi hi) (hc.getNorm j fj hj) hpw (normKey x.1) (hasKey_normFiles hx)
+      (hxy ▸ hasKey_normFiles hy)
 
 theorem mem_of_perm_range {n i : Nat} {ord : List Nat} (h : ord.Perm (List.range n)) (hi : i < n) :
     i ∈ ord := h.mem_iff.2 (List.mem_range.2 hi)
@@ -87,99 +98,186 @@ theorem lt_of_getElem?_some {α} {l : List α} {i : Nat} {a : α} (h : l[i]? = s
   | inr h' => rw [List.getElem?_eq_none h'] at h; exact absurd h (by simp)
 
 theorem conflict_detected_plugins (root out : Str) (mods plugs) (ord : List Nat)
-    (i j : Nat) (fi fj : Files) (p : Str)
+    (i j : Nat) (fi fj : Files) (x y : Str × Content)
     (hi : plugs[i]? = some (some fi)) (hj : plugs[j]? = some (some fj)) (hij : i ≠ j)
-    (hpi : hasKey fi p = true) (hpj : hasKey fj p = true)
+    (hx : x ∈ fi) (hy : y ∈ fj) (hxy : normKey x.1 = normKey y.1)
     (hord : ord.Perm (List.range plugs.length)) :
     ∃ e, generatePlan root out mods plugs ord = .error e :=
-  conflict_detected_plugins_mem root out mods plugs ord i j fi fj p hi hj hij
+  conflict_detected_plugins_mem root out mods plugs ord i j fi fj x y hi hj hij
     (mem_of_perm_range hord (lt_of_getElem?_some hi)) (mem_of_perm_range hord (lt_of_getElem?_some hj))
-    hpi hpj
+    hx hy hxy
 
-/-- (b) a plugin answers with a path the core generator also produces. -/
-theorem conflict_detected_core_mem (root out : Str) (mods plugs) (ord : List Nat)
-    (m : ModIn) (i : Nat) (fi : Files) (p : Str)
-    (hm : m ∈ mods) (hmp : modulePath root m.thriftPath = some p)
-    (hi : plugs[i]? = some (some fi)) (hio : i ∈ ord) (hpi : hasKey fi p = true) :
+theorem getElem_of_getElem? {α} {l : List α} {i : Nat} {a : α} (h : l[i]? = some a) :
+    ∃ hi : i < l.length, l[i] = a := by
+  have hi := lt_of_getElem?_some h
+  have := List.getElem?_eq_getElem hi
+  rw [h] at this
+  exact ⟨hi, (Option.some.inj this).symm⟩
+
+/-- (a') one plugin answers with two entries (at different positions) that are the same file. -/
+theorem conflict_detected_plugin_self_mem (root out : Str) (mods plugs) (ord : List Nat)
+    (i : Nat) (fi : Files) (a b : Nat) (x y : Str × Content)
+    (hi : plugs[i]? = some (some fi)) (hio : i ∈ ord)
+    (hx : fi[a]? = some x) (hy : fi[b]? = some y) (hab : a ≠ b)
+    (hxy : normKey x.1 = normKey y.1) :
     ∃ e, generatePlan root out mods plugs ord = .error e := by
   cases hg : generatePlan root out mods plugs ord with
   | error e => exact ⟨e, rfl⟩
   | ok ws =>
     exfalso
-    obtain ⟨core, fs, hgm, hc, _, hd, _⟩ := generatePlan_ok_spec hg
-    have hcore : hasKey core p = true := ((genModules_ok_spec _ _ _ _ hgm).2.2.2.1 m hm p hmp).1
-    refine hd p hcore ?_
-    obtain ⟨x, hx, hxp⟩ : ∃ x ∈ fi, x.1 = p := by
-      simpa [hasKey] using hpi
-    have hmem : x ∈ (pickOrder fs ord).flatten :=
-      List.mem_flatten.2 ⟨fi, mem_pickOrder.2 ⟨i, hio, hc.get i fi hi⟩, hx⟩
+    obtain ⟨core, fs, _, hc, _, hnod, _⟩ := generatePlan_ok_spec hg
+    have hn := hnod (normFiles fi) (mem_pickOrder.2 ⟨i, hio, hc.getNorm i fi hi⟩)
+    have hn' : (fi.map (fun x => normKey x.1)).Pairwise (· ≠ ·) := by
+      have : keys (normFiles fi) = fi.map (fun x => normKey x.1) := keys_normFiles fi
+      rw [this] at hn; exact hn
+    rw [List.pairwise_map, List.pairwise_iff_getElem] at hn'
+    obtain ⟨ha, ea⟩ := getElem_of_getElem? hx
+    obtain ⟨hb, eb⟩ := getElem_of_getElem? hy
+    rcases Nat.lt_or_gt_of_ne hab with hlt | hlt
+    · exact hn' a b ha hb hlt (by rw [ea, eb]; exact hxy)
+    · exact hn' b a hb ha hlt (by rw [ea, eb]; exact hxy.symm)
+
+theorem conflict_detected_plugin_self (root out : Str) (mods plugs) (ord : List Nat)
+    (i : Nat) (fi : Files) (a b : Nat) (x y : Str × Content)
+    (hi : plugs[i]? = some (some fi))
+    (hx : fi[a]? = some x) (hy : fi[b]? = some y) (hab : a ≠ b)
+    (hxy : normKey x.1 = normKey y.1) (hord : ord.Perm (List.range plugs.length)) :
+    ∃ e, generatePlan root out mods plugs ord = .error e :=
+  conflict_detected_plugin_self_mem root out mods plugs ord i fi a b x y hi
+    (mem_of_perm_range hord (lt_of_getElem?_some hi)) hx hy hab hxy
+
+/-- (b) a plugin answers with a path that is the same file as one of the core generator. -/
+theorem conflict_detected_core_mem (root out : Str) (mods plugs) (ord : List Nat)
+    (m : ModIn) (i : Nat) (fi : Files) (p : Str) (x : Str × Content)
+    (hm : m ∈ mods) (hmp : modulePath root m.thriftPath = some p)
+    (hi : plugs[i]? = some (some fi)) (hio : i ∈ ord) (hx : x ∈ fi)
+    (hxp : normKey x.1 = normKey p) :
+    ∃ e, generatePlan root out mods plugs ord = .error e := by
+  cases hg : generatePlan root out mods plugs ord with
+  | error e => exact ⟨e, rfl⟩
+  | ok ws =>
+    exfalso
+    obtain ⟨core, fs, hgm, hc, _, _, hd, _⟩ := generatePlan_ok_spec hg
+    have hcore : hasKey core (normKey p) = true :=
+      ((genModules_ok_spec _ _ _ _ hgm).2.2.2.1 m hm _ ⟨p, hmp, rfl⟩).1
+    refine hd (normKey p) hcore ?_
+    have hmem : (normKey x.1, x.2) ∈ (pickOrder (fs.map normFiles) ord).flatten :=
+      List.mem_flatten.2 ⟨normFiles fi, mem_pickOrder.2 ⟨i, hio, hc.getNorm i fi hi⟩,
+        List.mem_map.2 ⟨x, hx, rfl⟩⟩
     rw [← hxp]; exact hasKey_of_mem hmem
 
 theorem conflict_detected_core (root out : Str) (mods plugs) (ord : List Nat)
-    (m : ModIn) (i : Nat) (fi : Files) (p : Str)
+    (m : ModIn) (i : Nat) (fi : Files) (p : Str) (x : Str × Content)
     (hm : m ∈ mods) (hmp : modulePath root m.thriftPath = some p)
-    (hi : plugs[i]? = some (some fi)) (hpi : hasKey fi p = true)
+    (hi : plugs[i]? = some (some fi)) (hx : x ∈ fi) (hxp : normKey x.1 = normKey p)
     (hord : ord.Perm (List.range plugs.length)) :
     ∃ e, generatePlan root out mods plugs ord = .error e :=
-  conflict_detected_core_mem root out mods plugs ord m i fi p hm hmp hi
-    (mem_of_perm_range hord (lt_of_getElem?_some hi)) hpi
+  conflict_detected_core_mem root out mods plugs ord m i fi p x hm hmp hi
+    (mem_of_perm_range hord (lt_of_getElem?_some hi)) hx hxp
 
 /-- (c) two modules (at different positions of the walk) map to the same output file. -/
 theorem conflict_detected_modules (root out : Str) (mods plugs) (ord : List Nat)
-    (i j : Nat) (mi mj : ModIn) (p : Str)
+    (i j : Nat) (mi mj : ModIn) (pi pj : Str)
     (hi : mods[i]? = some mi) (hj : mods[j]? = some mj) (hij : i ≠ j)
-    (hpi : modulePath root mi.thriftPath = some p) (hpj : modulePath root mj.thriftPath = some p) :
+    (hpi : modulePath root mi.thriftPath = some pi) (hpj : modulePath root mj.thriftPath = some pj)
+    (hpp : normKey pi = normKey pj) :
     ∃ e, generatePlan root out mods plugs ord = .error e := by
   cases hg : generatePlan root out mods plugs ord with
   | error e => exact ⟨e, rfl⟩
   | ok ws =>
     exfalso
-    obtain ⟨core, fs, hgm, _, _, _, _⟩ := generatePlan_ok_spec hg
-    have hpw := (genModules_ok_spec _ _ _ _ hgm).2.2.2.2
+    obtain ⟨core, fs, hgm, _⟩ := generatePlan_ok_spec hg
+    have hpw := (genModules_ok_spec _ _ _ _ hgm).2.2.2.2.1
     rw [List.pairwise_iff_getElem] at hpw
-    have hli := lt_of_getElem?_some hi
-    have hlj := lt_of_getElem?_some hj
-    have ei : mods[i] = mi := by
-      have := List.getElem?_eq_getElem hli; rw [hi] at this; exact (Option.some.inj this).symm
-    have ej : mods[j] = mj := by
-      have := List.getElem?_eq_getElem hlj; rw [hj] at this; exact (Option.some.inj this).symm
+    obtain ⟨hli, ei⟩ := getElem_of_getElem? hi
+    obtain ⟨hlj, ej⟩ := getElem_of_getElem? hj
     rcases Nat.lt_or_gt_of_ne hij with hlt | hlt
-    · exact hpw i j hli hlj hlt p (by rw [ei]; exact hpi) (by rw [ej]; exact hpj)
-    · exact hpw j i hlj hli hlt p (by rw [ej]; exact hpj) (by rw [ei]; exact hpi)
+    · exact hpw i j hli hlj hlt (normKey pi) (by rw [ei]; exact ⟨pi, hpi, rfl⟩)
+        (by rw [ej]; exact ⟨pj, hpj, hpp.symm⟩)
+    · exact hpw j i hlj hli hlt (normKey pi) (by rw [ej]; exact ⟨pj, hpj, hpp.symm⟩)
+        (by rw [ei]; exact ⟨pi, hpi, rfl⟩)
+
+/-! ### what is in a successful plan -/
+
+/-- every planned write is `Join(out, normKey p)` for a raw path `p` that is the path of a
+module or a checked (".."-free) path of a plugin answer. -/
+theorem plan_entries (root out : Str) (mods plugs ord) (ws : Files)
+    (h : generatePlan root out mods plugs ord = .ok ws) :
+    ∀ w ∈ ws, ∃ p, w.1 = join2 out (normKey p) ∧
+      ((∃ m ∈ mods, modulePath root m.thriftPath = some p) ∨
+       (∃ f, some f ∈ plugs ∧ (∃ x ∈ f, x.1 = p ∧ x.2 = w.2) ∧ containsDotDot p = false)) := by
+  obtain ⟨core, fs, hgm, hc, _, _, _, _, rfl⟩ := generatePlan_ok_spec h
+  intro w hw
+  obtain ⟨x, hx, rfl⟩ := List.mem_map.1 hw
+  rcases List.mem_append.1 hx with hx | hx
+  · rcases (genModules_ok_spec _ _ _ _ hgm).2.1 x hx with hnil | ⟨m, hm, p, hmp, hk⟩
+    · exact absurd hnil (by simp)
+    · exact ⟨p, by simp [hk], Or.inl ⟨m, hm, hmp⟩⟩
+  · obtain ⟨nf, hnf, hxf⟩ := List.mem_flatten.1 hx
+    obtain ⟨f, hf, rfl⟩ := List.mem_map.1 (mem_of_mem_pickOrder hnf)
+    obtain ⟨y, hy, rfl⟩ := List.mem_map.1 hxf
+    have hfp : some f ∈ plugs := by
+      have : (Except.ok f : Except PlanErr Files) ∈ plugs.map checkPlugin := hc ▸ List.mem_map_of_mem hf
+      obtain ⟨q, hq, hqf⟩ := List.mem_map.1 this
+      rw [(checkPlugin_ok hqf).1] at hq; exact hq
+    exact ⟨y.1, rfl, Or.inr ⟨f, hfp, ⟨y, hy, rfl, rfl⟩, hc.no_dotdot f hf y hy⟩⟩
 
 /-! ### confinement of the planned writes -/
 
+/-- every planned write is inside the (absolute) output directory — no side condition. -/
 theorem plan_confined (root out : Str) (mods plugs ord) (ws : Files)
-    (h : generatePlan root out mods plugs ord = .ok ws) (ho : isAbs out = true)
-    (hcore : ∀ m ∈ mods, ∀ p, modulePath root m.thriftPath = some p →
-      ∀ c ∈ splitSlash p, c ≠ dotdot) :
-    ∀ w ∈ ws, within (clean out) w.1 = true := by
-  obtain ⟨core, fs, hgm, hc, _, _, rfl⟩ := generatePlan_ok_spec h
-  intro w hw
-  obtain ⟨x, hx, rfl⟩ := List.mem_map.1 hw
-  apply join_confined out x.1 ho
-  rcases List.mem_append.1 hx with hx | hx
-  · rcases (genModules_ok_spec _ _ _ _ hgm).2.1 x hx with hnil | ⟨m, hm, hmp⟩
-    · exact absurd hnil (by simp)
-    · exact hcore m hm x.1 hmp
-  · obtain ⟨f, hf, hxf⟩ := List.mem_flatten.1 hx
-    exact no_dotdot_component _ (hc.no_dotdot f (mem_of_mem_pickOrder hf) x hxf)
-
-/-- the plugin part alone needs no hypothesis: whatever comes from a plugin is confined. -/
-theorem plan_plugin_entries_confined (root out : Str) (mods plugs ord) (ws : Files)
     (h : generatePlan root out mods plugs ord = .ok ws) (ho : isAbs out = true) :
-    ∀ w ∈ ws, within (clean out) w.1 = true ∨
-      ∃ m ∈ mods, ∃ p, modulePath root m.thriftPath = some p ∧ w.1 = join2 out p := by
-  obtain ⟨core, fs, hgm, hc, _, _, rfl⟩ := generatePlan_ok_spec h
+    ∀ w ∈ ws, within (clean out) w.1 = true := by
   intro w hw
-  obtain ⟨x, hx, rfl⟩ := List.mem_map.1 hw
-  rcases List.mem_append.1 hx with hx | hx
-  · rcases (genModules_ok_spec _ _ _ _ hgm).2.1 x hx with hnil | ⟨m, hm, hmp⟩
-    · exact absurd hnil (by simp)
-    · exact Or.inr ⟨m, hm, x.1, hmp, rfl⟩
-  · obtain ⟨f, hf, hxf⟩ := List.mem_flatten.1 hx
-    exact Or.inl (join_confined_of_contains out x.1 ho
-      (hc.no_dotdot f (mem_of_mem_pickOrder hf) x hxf))
+  obtain ⟨p, hp, _⟩ := plan_entries root out mods plugs ord ws h w hw
+  rw [hp]; exact join2_normKey_confined out p ho
+
+/-- normalising the keys does not move any file: for an absolute Thrift root every planned
+write is at `Join(out, p)` for the RAW path `p` (of a module, or of a plugin answer), and that
+raw path has no ".." component. -/
+theorem plan_writes_at_raw_join (root out : Str) (mods plugs ord) (ws : Files)
+    (h : generatePlan root out mods plugs ord = .ok ws) (ho : isAbs out = true)
+    (hr : isAbs root = true) :
+    ∀ w ∈ ws, ∃ p, w.1 = join2 out p ∧ (∀ c ∈ splitSlash p, c ≠ dotdot) ∧
+      ((∃ m ∈ mods, modulePath root m.thriftPath = some p) ∨
+       (∃ f, some f ∈ plugs ∧ ∃ x ∈ f, x.1 = p ∧ x.2 = w.2)) := by
+  intro w hw
+  obtain ⟨p, hp, hsrc⟩ := plan_entries root out mods plugs ord ws h w hw
+  have hnd : ∀ c ∈ splitSlash p, c ≠ dotdot := by
+    rcases hsrc with ⟨m, _, hmp⟩ | ⟨f, _, _, hcd⟩
+    · exact modulePath_abs_no_dotdot root _ p hr hmp
+    · exact no_dotdot_component p hcd
+  refine ⟨p, by rw [hp, join2_normKey_of_no_dotdot out p ho hnd], hnd, ?_⟩
+  rcases hsrc with h1 | ⟨f, hf, hx, _⟩
+  · exact Or.inl h1
+  · exact Or.inr ⟨f, hf, hx⟩
+
+/-- **C17** no file is planned twice (the positive form of the repaired D42). -/
+theorem plan_writes_distinct (root out : Str) (mods plugs ord) (ws : Files)
+    (h : generatePlan root out mods plugs ord = .ok ws) (ho : isAbs out = true) :
+    (ws.map (·.1)).Nodup := by
+  obtain ⟨core, fs, hgm, hc, _, _, _, hnod, rfl⟩ := generatePlan_ok_spec h
+  -- every key of the plan is a normalised key
+  have hnorm : ∀ x ∈ core ++ (pickOrder (fs.map normFiles) ord).flatten, ∃ p, x.1 = normKey p := by
+    intro x hx
+    rcases List.mem_append.1 hx with hx | hx
+    · rcases (genModules_ok_spec _ _ _ _ hgm).2.1 x hx with hnil | ⟨m, hm, p, hmp, hk⟩
+      · exact absurd hnil (by simp)
+      · exact ⟨p, hk.symm⟩
+    · obtain ⟨nf, hnf, hxf⟩ := List.mem_flatten.1 hx
+      obtain ⟨f, hf, rfl⟩ := List.mem_map.1 (mem_of_mem_pickOrder hnf)
+      obtain ⟨y, hy, rfl⟩ := List.mem_map.1 hxf
+      exact ⟨y.1, rfl⟩
+  simp only [List.map_map]
+  unfold keys at hnod
+  rw [List.Nodup, List.pairwise_map] at hnod ⊢
+  refine List.Pairwise.imp_of_mem (fun {a b} ha hb hab => ?_) hnod
+  obtain ⟨p, hp⟩ := hnorm a ha
+  obtain ⟨q, hq⟩ := hnorm b hb
+  intro he
+  simp only [Function.comp] at he
+  rw [hp, hq] at he hab
+  exact hab (join2_normKey_inj out p q ho he)
 
 /-! ### cliPlan -/
 
@@ -230,13 +328,49 @@ theorem isAbs_absPath (cwd p : Str) (hc : isAbs cwd = true) : isAbs (absPath cwd
     simp only [join2, ne_eq, reduceCtorEq, not_false_eq_true, if_true]
     exact isAbs_clean _ this
 
+/-- the command line needs nothing but an absolute working directory. -/
 theorem cli_confined (cwd : Str) (tr : Option Str) (out : Str) (mods plugs ord) (ws : Files)
-    (h : cliPlan cwd tr out mods plugs ord = .ok ws) (hcwd : isAbs cwd = true)
-    (hcore : ∀ root, cliRoot cwd tr mods = some root → ∀ m ∈ mods, ∀ p,
-      modulePath root m.thriftPath = some p → ∀ c ∈ splitSlash p, c ≠ dotdot) :
+    (h : cliPlan cwd tr out mods plugs ord = .ok ws) (hcwd : isAbs cwd = true) :
     ∀ w ∈ ws, within (clean (absPath cwd out)) w.1 = true := by
   obtain ⟨root, hr, hg⟩ := cliPlan_ok h
-  exact plan_confined root _ mods plugs ord ws hg (isAbs_absPath cwd out hcwd) (hcore root hr)
+  exact plan_confined root _ mods plugs ord ws hg (isAbs_absPath cwd out hcwd)
+
+theorem cli_writes_distinct (cwd : Str) (tr : Option Str) (out : Str) (mods plugs ord) (ws : Files)
+    (h : cliPlan cwd tr out mods plugs ord = .ok ws) (hcwd : isAbs cwd = true) :
+    (ws.map (·.1)).Nodup := by
+  obtain ⟨root, hr, hg⟩ := cliPlan_ok h
+  exact plan_writes_distinct root _ mods plugs ord ws hg (isAbs_absPath cwd out hcwd)
+
+/-- the Thrift root of the command line is absolute as soon as there is a module. -/
+theorem cliRoot_isAbs (cwd : Str) (tr : Option Str) (mods : List ModIn) (root : Str)
+    (hcwd : isAbs cwd = true) (hm : mods ≠ []) (h : cliRoot cwd tr mods = some root) :
+    isAbs root = true := by
+  cases tr with
+  | none =>
+    simp only [cliRoot] at h
+    exact findCommonAncestor_isAbs _ root (by simpa using hm) h
+  | some r =>
+    simp only [cliRoot] at h
+    split at h
+    · simp only [Option.some.injEq] at h; subst h; exact isAbs_absPath cwd r hcwd
+    · exact absurd h (by simp)
+
+/-- on the command line every planned write is at `Join(out, p)` for a raw module or plugin
+path `p` without ".." component. -/
+theorem cli_writes_at_raw_join (cwd : Str) (tr : Option Str) (out : Str) (mods plugs ord) (ws : Files)
+    (h : cliPlan cwd tr out mods plugs ord = .ok ws) (hcwd : isAbs cwd = true) :
+    ∀ w ∈ ws, ∃ p, w.1 = join2 (absPath cwd out) p ∧ (∀ c ∈ splitSlash p, c ≠ dotdot) := by
+  obtain ⟨root, hr, hg⟩ := cliPlan_ok h
+  intro w hw
+  by_cases hm : mods = []
+  · obtain ⟨p, hp, hsrc⟩ := plan_entries root _ mods plugs ord ws hg w hw
+    rcases hsrc with ⟨m, hmm, _⟩ | ⟨f, _, _, hcd⟩
+    · subst hm; simp at hmm
+    · have hnd := no_dotdot_component p hcd
+      exact ⟨p, by rw [hp, join2_normKey_of_no_dotdot _ p (isAbs_absPath cwd out hcwd) hnd], hnd⟩
+  · obtain ⟨p, hp, hnd, _⟩ := plan_writes_at_raw_join root _ mods plugs ord ws hg
+      (isAbs_absPath cwd out hcwd) (cliRoot_isAbs cwd tr mods root hcwd hm hr) w hw
+    exact ⟨p, hp, hnd⟩
 
 /-! ### ancestry -/
 
